@@ -18,6 +18,10 @@ PUB_EPS = 'eps=0,1,2,3,4,5,6,7'                   # the 8 public entry points
 NOCOUNT = 'count=0'   # instance re-explores a space owned by another instance (shallower depth, sanitizer build):
                       # its states/nontrivial are reported as *_local and add nothing to the summed totals
 
+# ASan keeps freed blocks in quarantine, so a deleted type's block would never be handed to the next new(Type);
+# with the quarantine off its allocator reuses the block at once (the harness records how often that happened)
+NOQUARANTINE = {'ASAN_OPTIONS': 'quarantine_size_mb=0:thread_local_quarantine_size_kb=0'}
+
 SEQUENTIAL = {
   'quick': (
     [T('matrix', 'base', 'mode=matrix', NOCOUNT),
@@ -34,7 +38,8 @@ SEQUENTIAL = {
     + shards('pairs-asan', 'asan', 2, 'mode=hist', 'depth=2', 'eps=0,2,5,7,8,12', NOCOUNT)
     + [T('long-asan', 'asan', 'mode=long', 'rotstep=7', NOCOUNT)]
     + [T('rt-small-asan', 'asan', 'mode=rt', 'ns=0,1,2,3,4,31', 'pool=7', 'variants=2', NOCOUNT),
-       T('rt-256-asan', 'asan', 'mode=rt', 'ns=255,256', 'variants=1', 'stride=16', NOCOUNT)]
+       T('rt-256-asan', 'asan', 'mode=rt', 'ns=255,256', 'variants=1', 'stride=16', NOCOUNT),
+       T('rt-recycle-asan', 'asan', 'mode=recycle', NOCOUNT, env=NOQUARANTINE)]
   ),
   'thorough': (
     [T('matrix', 'base', 'mode=matrix', NOCOUNT),
@@ -54,7 +59,8 @@ SEQUENTIAL = {
     + shards('triples-asan', 'asan', 12, 'mode=hist', 'depth=3', 'eps=0,2,7', NOCOUNT)
     + [T('rt-small-asan', 'asan', 'mode=rt', 'ns=0,1,2,3,4', 'pool=8', 'variants=2', NOCOUNT),
        T('rt-31-255-asan', 'asan', 'mode=rt', 'ns=31,255', 'variants=2', NOCOUNT),
-       T('rt-256-asan', 'asan', 'mode=rt', 'ns=256', 'variants=2', NOCOUNT)]
+       T('rt-256-asan', 'asan', 'mode=rt', 'ns=256', 'variants=2', NOCOUNT),
+       T('rt-recycle-asan', 'asan', 'mode=recycle', 'full=1', NOCOUNT, env=NOQUARANTINE)]
   ),
 }
 
@@ -101,7 +107,13 @@ CHECK = {
            'verification sweep. rt = run-time types built with new(Type, name, size, instances...) for each n, all permutations of '
            'all n-subsets of a class pool for n <= 4, all rotations of an interleaved (cached built-in class / run-time class) list '
            'above, every class of the universe looked up through all eight entry points starting cold, then name/size/new/'
-           'type_of/method()/cast/del against the declared list with call counters behind every instance. cast = all ordered '
+           'type_of/method()/cast/del against the declared list with call counters behind every instance. recycle = for every '
+           'class X (30 built-in, 2 run-time) a type T1 declaring X is created, X looked up through each entry point, T1 deleted '
+           '(del_raw / del_root) and at once a type T2 with the same number of instances created that declares X with a DIFFERENT '
+           'instance or not at all; the FIRST lookup on T2 is X (each entry point, first and last member), then a sweep over 38 '
+           'classes; a case counts as executed only if T2 really received the address T1 had (recycle_same_address in the '
+           'evidence; the ASan instance runs with the quarantine off for that reason); interleave = lookups of X alternating between '
+           'three live types that declare X with instance I1, with I2, and not at all. cast = all ordered '
            'pairs of exported types, for a harness object of the type and for the type object itself. '
            'states = distinct (type, configuration) pairs reached (interned) in the deepest history family of the tier (pairs in '
            'quick, triples in thorough; shards partition the types) plus, for each run-time type object, 1 + the number of '
@@ -116,7 +128,9 @@ CHECK = {
               'object + type_of): full matrix cold+warm; all ordered pairs over the 361-operation alphabet per type from cold; '
               'long histories (12 entry points x 30 rotations x 2 directions per type, 181 lookups each); run-time types '
               'n in {0,1,2,3,4,31,255,256}: all permutations of all n-subsets of an 8-class pool x 2 member variants for n<=4, '
-              'all rotations x 2 variants above, 290-class lookup universe; cast 71x71x2; ASan+UBSan: matrix, cast, pairs over '
+              'all rotations x 2 variants above, 290-class lookup universe; recycled type blocks: 32 classes x n in {1,3} x 8 x 8 '
+              'entry points x {other instance, class absent} x members (10112 cases; thorough x {del_raw, del_root}) + 316 '
+              'alternating-type cases; cast 71x71x2; ASan+UBSan: matrix, cast, pairs over '
               'a 151-operation alphabet, long histories every 7th rotation, run-time n<=31 full and 255/256 every 16th rotation'),
     'thorough': ('as quick plus all ordered TRIPLES over the 240-operation alphabet (8 public entry points x 30 classes) per '
                  'type from cold (9.8e8 histories); run-time types n in {0..5,8,17,18,19,31,32,64,128,255,256}, '
